@@ -346,6 +346,11 @@ def r11_4(ctx: Ctx):
         # positive evidence of a wrong generation: a constant position other than the last one
         for r in rets:
             for x in ast.walk(r.value) if r.value is not None else []:
+                if isinstance(x, ast.Subscript) and isinstance(x.value, ast.Subscript) and isinstance(x.value.value, ast.Attribute) and x.value.value.attr == "_history" and not isinstance(x.slice, ast.Slice):
+                    idx2 = x.slice
+                    val2 = idx2.value if isinstance(idx2, ast.Constant) else (-idx2.operand.value if isinstance(idx2, ast.UnaryOp) and isinstance(idx2.op, ast.USub) and isinstance(idx2.operand, ast.Constant) else None)
+                    if isinstance(val2, int) and val2 != -1 and st_cp != OK:
+                        st_cp = VIOLATION  # a fixed generation of a metaepoch other than its last one
                 if isinstance(x, ast.Subscript) and isinstance(x.value, ast.Attribute) and x.value.attr in ("history", "_history") and not isinstance(x.slice, ast.Slice):
                     idx = x.slice
                     val = idx.value if isinstance(idx, ast.Constant) else (-idx.operand.value if isinstance(idx, ast.UnaryOp) and isinstance(idx.op, ast.USub) and isinstance(idx.operand, ast.Constant) else None)
